@@ -13,6 +13,14 @@ CLAIMED = {
    technique="table/vocabulary agreement over go/types constants and literals + type flow into interface slots (SSA) + polynomial folding of the unit conversion + guarded-by on the defaulting skeleton and on every parent-style dereference",
    text="Decides structural necessary conditions of CSS defaulting: the six per-property tables agree with each other and with CSS 2.1 Appendix F (inherited flags, initial keywords), every value that can enter a style slot has the slot's type, the unit table holds the fixed CSS ratios, length_ multiplies each relative unit by the right font size, the inherit/initial skeleton of cascadeValue, and the root never dereferences its missing parent. Pending var() paths, caching order and font metrics are not decided.",
    ref="4 C04"),
+ "C17": dict(
+   technique="polynomial value numbering of the matrix routines over SSA (exact rationals, uninterpreted trig) compared with specification matrices + AST/SSA checks of vocabulary, arity, argument order, composition order and origin conjugation",
+   text="Decides that each routine of package matrix, as a polynomial in its inputs, equals the specification matrix (and in-place operations equal right multiplication by the constructor), that SVG transform.applyTo right-multiplies by the specified matrix per kind with degrees converted to radians, and that the CSS/SVG plumbing (names, arities, argument positions, left-to-right composition, transform-origin conjugation, angle-unit table) is as specified. Float rounding is outside the abstraction; the matrix finally handed to the backend is not traced further than getMatrix/applyTo.",
+   ref="4 C17"),
+ "C20": dict(
+   technique="constant propagation of the separator table's init loops (cross product of literals) compared with the CSS Syntax §9 fusing-pair oracle + vocabulary agreement with Kind.String() + ParseError kind coverage + escaper case sets",
+   text="Decides necessary conditions of serialize/re-tokenize round-tripping: every fusing pair of adjacent token kinds gets a separator, no row of the table is dead through a misspelt kind, every token-level ParseError kind is serialisable, and the string/url/name escapers cover the required characters. Identifier-start escaping, the scientific-notation ambiguity and number representation are not decided.",
+   ref="4 C20"),
 }
 
 NOT_APPLICABLE = {
